@@ -87,7 +87,56 @@ func c09ConcRun(optA, optB int) (statusA []kmip.ResultStatus, calledA3 bool, sta
 	return
 }
 
+// c09AfterDiscover: requests handled one after the other on one executor: what a version-discovery item asked
+// does not change how later requests are handled (every version the executor supports stays supported).
+func c09AfterDiscover(c *h.Ctx) {
+	for vi, configured := range [][]kmip.ProtocolVersion{nil, {kmip.V1_4, kmip.V1_3, kmip.V1_2, kmip.V1_1, kmip.V1_0}, {kmip.V1_0, kmip.V1_4}} {
+		for qi, asked := range [][]kmip.ProtocolVersion{{kmip.V1_2}, {kmip.V1_0}, {kmip.V1_3, kmip.V1_1}, {}, {kmip.V1_4, kmip.V1_3, kmip.V1_2, kmip.V1_1, kmip.V1_0}} {
+			exec := kmipserver.NewBatchExecutor()
+			if configured != nil {
+				exec.SetSupportedProtocolVersions(configured...)
+			}
+			exec.Route(kmip.OperationGet, c09HandlerFunc(func(ctx context.Context, pl kmip.OperationPayload) (kmip.OperationPayload, error) {
+				return &payloads.GetResponsePayload{UniqueIdentifier: pl.(*payloads.GetRequestPayload).UniqueIdentifier}, nil
+			}))
+			supported := configured
+			if supported == nil {
+				supported = []kmip.ProtocolVersion{kmip.V1_0, kmip.V1_1, kmip.V1_2, kmip.V1_3, kmip.V1_4}
+			}
+			note := ""
+			func() {
+				defer func() {
+					if r := recover(); r != nil {
+						note = fmt.Sprint("panic: ", r)
+					}
+				}()
+				exec.HandleRequest(context.Background(), &kmip.RequestMessage{Header: kmip.RequestHeader{ProtocolVersion: supported[0], BatchCount: 1},
+					BatchItem: []kmip.RequestBatchItem{{Operation: kmip.OperationDiscoverVersions, RequestPayload: &payloads.DiscoverVersionsRequestPayload{ProtocolVersion: asked}}}})
+				for _, v := range supported {
+					r := exec.HandleRequest(context.Background(), &kmip.RequestMessage{Header: kmip.RequestHeader{ProtocolVersion: v, BatchCount: 2},
+						BatchItem: []kmip.RequestBatchItem{{Operation: kmip.OperationGet, RequestPayload: &payloads.GetRequestPayload{UniqueIdentifier: "a"}}, {Operation: kmip.OperationGet, RequestPayload: &payloads.GetRequestPayload{UniqueIdentifier: "b"}}}})
+					if r == nil || len(r.BatchItem) != 2 || r.BatchItem[0].ResultStatus != kmip.ResultStatusSuccess || r.BatchItem[1].ResultStatus != kmip.ResultStatusSuccess {
+						n := -1
+						if r != nil {
+							n = len(r.BatchItem)
+						}
+						note = fmt.Sprintf("after a version-discovery item listing %v, a two-item batch in supported version %v is answered with %d item(s)", asked, v, n)
+						return
+					}
+				}
+			}()
+			c.Eval(fmt.Sprintf("after-discover/%d/%d", vi, qi), true)
+			c.Count("requests-after-discovery")
+			if note != "" {
+				c.Fail("C09/shape/after-version-discovery", note, map[string]any{"leg": "concurrent", "kind": "after-discover", "configured": vi, "asked": qi})
+				return
+			}
+		}
+	}
+}
+
 func c09Concurrent(c *h.Ctx) {
+	c09AfterDiscover(c)
 	pairs := [][2]int{{2, 1}, {2, 0}, {1, 2}, {0, 2}, {2, 2}, {1, 1}}
 	if c.Replay != nil {
 		cs, _ := c.Replay["case"].(map[string]any)
